@@ -131,7 +131,8 @@ pub fn dir_contents(rt: &Runtime, b: &Built) -> Vec<(String, u64)> {
     match &b.versions_dir_fs {
         Some(p) => {
             for e in std::fs::read_dir(p).unwrap().flatten() {
-                let c = std::fs::read_to_string(e.path()).unwrap();
+                // a temporary file of a rename/copy in flight may vanish between read_dir and the read
+                let Ok(c) = std::fs::read_to_string(e.path()) else { continue };
                 out.push((e.file_name().to_string_lossy().to_string(), c.trim().parse().unwrap_or(u64::MAX)));
             }
         }
